@@ -7,6 +7,7 @@ from typing import Any, MutableMapping, cast
 from streamflow.core.exception import WorkflowExecutionException
 from streamflow.core.persistence import Database, DatabaseLoadingContext
 from streamflow.core.utils import get_entity_ids, get_tag
+from streamflow.core.scheduling import Hardware, HardwareRequirement
 from streamflow.core.workflow import Command, CommandOutput, Status, Token
 from streamflow.workflow.step import ConditionalStep, Transformer
 from streamflow.workflow.token import ListToken
@@ -25,21 +26,38 @@ JOB_JITTER = 0.004
 JOB_MODE = "random"
 
 
+class GenHardwareRequirement(HardwareRequirement):
+    """every job of the pipeline asks for ALL the cores of the local deployment: jobs of different pipelines queue"""
+
+    @classmethod
+    async def _load(cls, row, loading_context):
+        return cls()
+
+    async def _save_additional_params(self, database):
+        return {}
+
+    def eval(self, job):
+        from streamflow.deployment.connector.local import _max_cores
+        return Hardware(cores=float(_max_cores()))
+
+
 class GenCommand(Command):
     """the command of the generated job pipelines: lin(inputs) + k after a PRNG-chosen (schedule dependent) duration"""
 
-    def __init__(self, step, k=0, nin=1, fail_tag=None):
+    def __init__(self, step, k=0, nin=1, fail_tag=None, delay=0.0):
         super().__init__(step)
-        self.k, self.nin, self.fail_tag = k, nin, fail_tag
+        self.k, self.nin, self.fail_tag, self.delay = k, nin, fail_tag, delay
 
     @classmethod
     async def _load(cls, row, loading_context, step):
-        return cls(step=step, k=row["k"], nin=row["nin"], fail_tag=row.get("fail_tag"))
+        return cls(step=step, k=row["k"], nin=row["nin"], fail_tag=row.get("fail_tag"), delay=row.get("delay", 0.0))
 
     async def _save_additional_params(self, database):
-        return {"k": self.k, "nin": self.nin, "fail_tag": self.fail_tag}
+        return {"k": self.k, "nin": self.nin, "fail_tag": self.fail_tag, "delay": self.delay}
 
     async def execute(self, job):
+        if self.delay:
+            await asyncio.sleep(self.delay)
         if JOB_MODE == "reverse" and JOB_JITTER > 0:
             idx = int(get_tag(job.inputs.values()).split(".")[-1])
             await asyncio.sleep(max(0, 14 - idx) * 0.012)
@@ -64,24 +82,26 @@ def tokval(t):
 
 
 class GenTransformer(Transformer):
-    def __init__(self, name, workflow, fn="add", k=0, nin=1, fail_tag=None):
+    def __init__(self, name, workflow, fn="add", k=0, nin=1, fail_tag=None, fail_iter=None):
         super().__init__(name, workflow)
-        self.fn, self.k, self.nin, self.fail_tag = fn, k, nin, fail_tag
+        self.fn, self.k, self.nin, self.fail_tag, self.fail_iter = fn, k, nin, fail_tag, fail_iter
 
     @classmethod
     async def _load(cls, row: MutableMapping[str, Any], loading_context: DatabaseLoadingContext):
         p = row["params"]
         return cls(name=row["name"], workflow=await loading_context.load_workflow(row["workflow"]),
-                   fn=p["fn"], k=p["k"], nin=p["nin"], fail_tag=p["fail_tag"])
+                   fn=p["fn"], k=p["k"], nin=p["nin"], fail_tag=p["fail_tag"], fail_iter=p.get("fail_iter"))
 
     async def _save_additional_params(self, database: Database) -> MutableMapping[str, Any]:
         return cast(dict, await super()._save_additional_params(database)) | {
-            "fn": self.fn, "k": self.k, "nin": self.nin, "fail_tag": self.fail_tag}
+            "fn": self.fn, "k": self.k, "nin": self.nin, "fail_tag": self.fail_tag, "fail_iter": self.fail_iter}
 
     async def transform(self, inputs):
         tag = get_tag(inputs.values())
         if self.fail_tag is not None and tag == self.fail_tag:
             raise WorkflowExecutionException(f"injected failure in {self.name} on tag {tag}")
+        if self.fail_iter is not None and tag.split(".")[-1] == str(self.fail_iter):
+            raise WorkflowExecutionException(f"injected failure in {self.name} in iteration {self.fail_iter} (tag {tag})")
         vals = [tokval(inputs[f"i{j}"]) for j in range(self.nin)]
         outs = apply_fn(self.fn, self.k, vals)
         return {f"o{j}": mktoken(v, tag) for j, v in enumerate(outs)}
